@@ -45,8 +45,12 @@ type Req struct {
 // Case: a description, a registration set and, for the serving clause, one request.
 type Case struct {
 	Spec apib.Spec `json:"spec"`
-	Reg  Reg       `json:"reg"`
+	Reg  Reg       `json:"reg"` // history cases: the initial registration state
 	Req  *Req      `json:"req,omitempty"`
+	// history cases (history.go): the calls made on the one API value after Reg was applied
+	History  bool   `json:"history,omitempty"`
+	Seq      []Step `json:"seq,omitempty"`
+	Thorough bool   `json:"thoroughRequests,omitempty"`
 }
 
 // recorder collects what the doubles saw during one request.
@@ -115,13 +119,7 @@ func buildAPI(doc *loads.Document, s apib.Spec, reg Reg, rec *recorder) *untyped
 	}
 	for _, o := range reg.Ops {
 		key := normOp(o.Method, o.Path)
-		api.RegisterOperation(o.Method, o.Path, runtime.OperationHandlerFunc(func(interface{}) (interface{}, error) {
-			rec.handler = append(rec.handler, key)
-			if noPayload[key] {
-				return nil, nil
-			}
-			return "ok", nil
-		}))
+		api.RegisterOperation(o.Method, o.Path, opHandler(rec, key, noPayload[key]))
 	}
 	for _, a := range reg.Auths {
 		api.RegisterAuth(a, authDouble(rec, a))
@@ -350,6 +348,9 @@ func requestsFor(s apib.Spec, i int, thorough bool) []Req {
 
 // check is the pure per-case function used by the enumerator's replay path.
 func check(c Case) (string, string) {
+	if c.History {
+		return checkHistory(c)
+	}
 	doc, err := apib.Load(c.Spec)
 	if err != nil {
 		return "", "description does not load: " + err.Error()
